@@ -91,6 +91,25 @@ def op_table(rnd):
     k = rnd.choice([2.0, -0.5, 3.0])
     two = lambda f: (lambda: (f(), f()))
     one = lambda f: (lambda: (f(),))
+
+    def pair():
+        """operand pairs for the two-pose helpers: generic, and the special placements their branches key on — the same pose, the same
+        position, one directly above / below the other (lookAt's degenerate case), pure translations, collinear along an axis"""
+        a = pose()
+        kind = rnd.choice(['generic', 'generic', 'same', 'same_position', 'above', 'below', 'translations', 'along_x'])
+        if kind == 'generic':
+            b = pose()
+        elif kind == 'same':
+            b = list(a)
+        elif kind == 'same_position':
+            b = a[:3] + pose()[3:]
+        elif kind in ('above', 'below'):
+            b = [a[0], a[1], a[2] + (1 if kind == 'above' else -1) * rnd.uniform(0.5, 4.0)] + (pose()[3:] if rnd.random() < 0.5 else [0.0, 0.0, 0.0])
+        elif kind == 'translations':
+            a = a[:3] + [0.0, 0.0, 0.0]; b = pose()[:3] + [0.0, 0.0, 0.0]
+        else:
+            b = [a[0] + rnd.uniform(0.5, 3.0), a[1], a[2]] + a[3:]
+        return tm(a), tm(b)
     tab = [
         ('tm.gTM', one(T), lambda a: a.gTM(), True), ('tm.gTAA', one(T), lambda a: a.gTAA(), True), ('tm.gPos', one(T), lambda a: a.gPos(), True),
         ('tm.gRot', one(T), lambda a: a.gRot(), True), ('tm.getQuat', one(T), lambda a: a.getQuat(), True), ('tm.adjoint', one(T), lambda a: a.adjoint(), True),
@@ -100,15 +119,15 @@ def op_table(rnd):
         ('tm.inv', one(T), lambda a: a.inv(), True), ('tm.matmul', two(T), lambda a, b: a @ b, True), ('tm.add', two(T), lambda a, b: a + b, True),
         ('tm.sub', two(T), lambda a, b: a - b, True), ('tm.mulS', one(T), lambda a: a * k, True), ('tm.divS', one(T), lambda a: a / k, True),
         ('tm.abs', one(T), lambda a: abs(a), True), ('tm.floordivS', one(T), lambda a: a // 2.0, True), ('tm.floordiv', two(T), lambda a, b: a // b, True),
-        ('fsr.localToGlobal', two(T), lambda a, b: fsr.localToGlobal(a, b), False), ('fsr.globalToLocal', two(T), lambda a, b: fsr.globalToLocal(a, b), False),
-        ('fsr.distance', two(T), lambda a, b: fsr.distance(a, b), False), ('fsr.arcDistance', two(T), lambda a, b: fsr.arcDistance(a, b), False),
-        ('fsr.tmInterpMidpoint', two(T), lambda a, b: fsr.tmInterpMidpoint(a, b), False), ('fsr.tmAvgMidpoint', two(T), lambda a, b: fsr.tmAvgMidpoint(a, b), False),
-        ('fsr.closeLinearGap', two(T), lambda a, b: fsr.closeLinearGap(a, b, 0.3), False), ('fsr.closeArcGap', two(T), lambda a, b: fsr.closeArcGap(a, b, 0.3), False),
-        ('fsr.IKPath', two(T), lambda a, b: fsr.IKPath(a, b, 5), False),
+        ('fsr.localToGlobal', pair, lambda a, b: fsr.localToGlobal(a, b), False), ('fsr.globalToLocal', pair, lambda a, b: fsr.globalToLocal(a, b), False),
+        ('fsr.distance', pair, lambda a, b: fsr.distance(a, b), False), ('fsr.arcDistance', pair, lambda a, b: fsr.arcDistance(a, b), False),
+        ('fsr.tmInterpMidpoint', pair, lambda a, b: fsr.tmInterpMidpoint(a, b), False), ('fsr.tmAvgMidpoint', pair, lambda a, b: fsr.tmAvgMidpoint(a, b), False),
+        ('fsr.closeLinearGap', pair, lambda a, b: fsr.closeLinearGap(a, b, 0.3), False), ('fsr.closeArcGap', pair, lambda a, b: fsr.closeArcGap(a, b, 0.3), False),
+        ('fsr.IKPath', pair, lambda a, b: fsr.IKPath(a, b, 5), False),
         ('fsr.adjustRotationToMidpoint', lambda: (T(), T(), T()), lambda a, b, c: fsr.adjustRotationToMidpoint(a, b, c), False),
-        ('fsr.lookAt', two(T), lambda a, b: fsr.lookAt(a, b), False), ('fsr.mirror', two(T), lambda a, b: fsr.mirror(a, b), False),
-        ('fsr.poseError', two(T), lambda a, b: fsr.poseError(a, b), False), ('fsr.geometricError', two(T), lambda a, b: fsr.geometricError(a, b), False),
-        ('fsr.twistToGoal', two(T), lambda a, b: fsr.twistToGoal(a, b), False),
+        ('fsr.lookAt', pair, lambda a, b: fsr.lookAt(a, b), False), ('fsr.mirror', pair, lambda a, b: fsr.mirror(a, b), False),
+        ('fsr.poseError', pair, lambda a, b: fsr.poseError(a, b), False), ('fsr.geometricError', pair, lambda a, b: fsr.geometricError(a, b), False),
+        ('fsr.twistToGoal', pair, lambda a, b: fsr.twistToGoal(a, b), False),
         ('screw.getData', one(S), lambda a: a.getData(), True), ('screw.flatten', one(S), lambda a: a.flatten(), True), ('screw.copy', one(S), lambda a: a.copy(), True),
         ('screw.add_obj', two(S), lambda a, b: a + b, True), ('screw.sub_obj', two(S), lambda a, b: a - b, True),
         ('screw.add_arr', lambda: (S(), vec6()), lambda a, v: a + v, True), ('screw.sub_arr', lambda: (S(), vec6().reshape(6, 1)), lambda a, v: a - v, True),
